@@ -2,7 +2,7 @@
    Opcodes are documented in harness/ops.py (kept in sync by hand; an unknown opcode or a
    malformed argument yields sx_bad, which the harness treats as a harness error). *)
 From HT Require Import Model.Str Model.Sx Model.Tree Model.Escape Model.Render Model.Codec
-     Model.TagTable Gen.Tables Spec.Layout Spec.StripMeta Model.Concat Model.Tagify.
+     Model.TagTable Gen.Tables Spec.Layout Spec.StripMeta Model.Concat Model.Tagify Spec.Tokenizer Spec.TreeElems.
 
 Definition unit_of_sx (x : sx) : option unit := Some tt.
 Definition sx_unit (u : unit) : sx := L [].
@@ -74,6 +74,20 @@ Definition run (x : sx) : sx :=
       let t := taglist_tagify l' in
       L [L (map (sx_node sx_unit) t); sx_res sx_str (list_html i' e' true true t)]
     | _, _, _ => sx_bad
+    end
+  (* 11: C01 specification: tokenize and parse a string *)
+  | L [A 11; s] =>
+    match str_of_sx s with
+    | Some s' => L [sx_opt (fun ts => L (map sx_token ts)) (tokenize s');
+                    sx_opt (fun f => L (map sx_elem (canon f))) (parse s')]
+    | None => sx_bad
+    end
+  (* 12: C01 specification: ordinary?, canonical element forest of a tree *)
+  | L [A 12; n; eol] =>
+    match unode_of_sx n, str_of_sx eol with
+    | Some n', Some e' =>
+      L [sx_bool (ordinary n' && ws_only e'); L (map sx_elem (canon (elems_of n')))]
+    | _, _ => sx_bad
     end
   (* 10: the regenerated wrapper tables and name sets *)
   | L [A 10] =>
